@@ -37,6 +37,9 @@ func TestGovcReplayLedger(t *testing.T) {
 	l := ldg.StateLedger.(*SimpleLedger)
 	a := types.NewAddressByStr("0x1000000000000000000000000000000000000001")
 	scenario := in.Values["scenario"]
+	if strings.Contains(in.Clause, "pruning") {
+		scenario = "commit-after-a-crash-before-pruning"
+	}
 	if strings.Contains(in.Clause, "tx-meta") {
 		// the tx-meta clauses of the rollback contracts are replayed by the lookup scenario
 		scenario = "lookups-after-rollback-and-reexecution"
@@ -262,6 +265,44 @@ func TestGovcReplayLedger(t *testing.T) {
 			}
 			l2.Close()
 			os.RemoveAll(dir)
+		}
+	case "commit-after-a-crash-before-pruning":
+		// 13 blocks persisted; the pruning write of block 13 (the second durable write of its commit) is lost: the
+		// stored lower end of the journal window stays one block behind. The node comes back and must be able to
+		// commit block 14.
+		lg, dir := initLedger(t, "")
+		for h := uint64(1); h <= 13; h++ {
+			lg.PrepareBlock(nil, h)
+			lg.SetBalance(a, big.NewInt(int64(h)))
+			accounts, r := lg.FlushDirtyData()
+			lg.PersistBlockData(genBlockData(h, accounts, r))
+		}
+		sl := lg.StateLedger.(*SimpleLedger)
+		behind := sl.minJnlHeight - 1
+		sl.ldb.Put(compositeKey(journalKey, minHeightStr), marshalHeight(behind))
+		lg.Close()
+		bs, _ := leveldb.New(filepath.Join(dir, "storage"))
+		sdb, _ := leveldb.New(filepath.Join(dir, "ledger"))
+		ac, _ := NewAccountCache()
+		lgr := log.NewWithModule("replay")
+		bf, _ := blockfile.NewBlockFile(dir, lgr)
+		l2, err := New(createMockRepo(t), bs, sdb, bf, ac, lgr)
+		if err != nil {
+			fmt.Println("REPLAY-NOT-CONFIRMED could not reopen the ledger:", err)
+			os.RemoveAll(dir)
+			return
+		}
+		fmt.Printf("replay: reopened at height %d with the journal window starting at %d (one block behind)\n", l2.Version(), l2.StateLedger.(*SimpleLedger).minJnlHeight)
+		l2.PrepareBlock(nil, 14)
+		l2.SetBalance(a, big.NewInt(14))
+		accounts, r := l2.FlushDirtyData()
+		cerr := l2.StateLedger.Commit(14, accounts, r)
+		fmt.Printf("replay: commit of block 14 after the restart: %v\n", cerr)
+		l2.Close()
+		os.RemoveAll(dir)
+		if cerr != nil {
+			fmt.Println("REPLAY-CONFIRMED after a crash before the pruning write of a commit the next block cannot be committed")
+			return
 		}
 	default:
 		fmt.Println("REPLAY-NOT-CONFIRMED unknown scenario", in.Values["scenario"])
